@@ -9,5 +9,6 @@ CONSTANTS
   KindChoices = {"async"}
   BodyPanics = FALSE
   BodyUsesPool = TRUE
+  JoinerOnPool = TRUE
 SPECIFICATION FairSpec
 PROPERTIES JoinReturns
